@@ -4,27 +4,43 @@ PROP = dict(
         name="libFuzzer x86-32/x86-64 (Assembler/Builder/Compiler, arbitrary ids/options/operands, three error-handler kinds)",
         runner="custom", module="run_libfuzzer", target="fuzz_c14_x86", property="C14",
         make=["build/bin/fuzz_c14_x86"], regress="regress/C14", corpus="data/corpus/c14_x86",
-        quick=dict(runs=30000, workers=16, max_len=256, timeout=1200),
+        fuzz_args=["-verbosity=0"],   # the runner drains the workers' stderr pipes one after the other: progress lines would stall the other 15 workers
+        quick=dict(runs=100000, workers=16, max_len=256, timeout=1200),
         thorough=dict(runs=3000000, workers=16, max_len=512, timeout=7200),
     )],
     rule=("coverage-guided libFuzzer campaigns (16 processes, half starting from an empty corpus and half from a small seed corpus): bytes are decoded by "
-          "FuzzedDataProvider into scripts of up to 24 public-API calls on an x86 Assembler / Builder / Compiler with strict validation: arbitrary "
+          "FuzzedDataProvider into scripts of up to 24 public-API calls on an x86 Assembler (strict) / Builder / Compiler (DiagnosticOptions generated: "
+          "kValidateAssembler|kValidateIntermediate, kValidateIntermediate, kValidateAssembler, none): arbitrary "
           "instruction id (incl. out of range), any combination of defined InstOptions bits, arbitrary extra register, 0..6 operands of arbitrary "
-          "kind built through public constructors/setters (any RegType and id, memory operands with any base/index/label/absolute/segment/broadcast/"
+          "kind built through public constructors/setters (any RegType and id - physical, the boundaries 31/32/254/255/256/0xFFFFFFFE.., and the "
+          "virtual range >= Operand::kVirtIdMin for register operands, memory bases, memory indexes and the extra register; memory operands with any "
+          "base/index/label/absolute/segment/broadcast/"
           "address type, immediates, valid and invalid label ids), interleaved with valid instructions and bind/align/embed/embed_label(_delta)/"
           "new_named_label/new_section/section/comment given valid and invalid arguments; error handler none/recording/throwing. The oracle inside the "
-          "target checks every call (see props/fuzz_c14_x86.cpp). Non-trivial = a script with >=1 failed call followed by >=1 successful call; "
+          "target checks every call (see props/fuzz_c14_x86.cpp); for a Builder / Compiler every accepted call is repeated on a strict shadow Assembler: "
+          "with kValidateIntermediate an accepted instruction must pass InstAPI::validate() the way the Assembler calls it and carry no virtual-range id "
+          "(Builder), a rejected call leaves node list / cursor / flags / options untouched, and serialising the nodes (finalize(), or serialize_to a strict "
+          "Assembler) must fail iff the shadow rejected an accepted call and otherwise give the shadow's bytes, label offsets and relocation counts. "
+          "Non-trivial = a script with >=1 failed call followed by >=1 successful call; "
           "distinct = distinct input bytes"),
     assumptions=["NDEBUG + ASan + UBSan flavour (what users ship); undefined InstOptions bits (0x10000000, 0x20000000, 0x00100000, 0x8) are outside the typed API and not generated",
+                 "arbitrary operand kinds are in the property's domain only with strict validation: every Assembler that encodes (the emitter itself, the shadow, the one behind "
+                 "finalize()) validates; a Builder without kValidateAssembler is serialised to a strict Assembler with serialize_to() instead of finalize()",
+                 "an instruction that InstAPI::validate() admits and only the encoder refuses (e.g. Inst::kIdNone, string instructions without operands, REX options in 32-bit mode) "
+                 "is C13's validator/encoder disagreement: counted as validated_but_encoder_rejects:<error>, the serialisation then has to fail",
+                 "Builder/Assembler bytes are compared for single-section scripts (a Builder groups nodes by section); a Compiler is compared only while no virtual-range id was "
+                 "accepted (no functions are created, so its register allocator never runs); calls naming a label that is created later are not judged",
                  "a libFuzzer campaign is only approximately reproducible from -seed; the saved artifact is the reproducible unit",
                  "AArch64 invalid-input handling is exercised by C02's near-miss stream (values one step outside every range), not by a fuzz target yet"],
 )
 META = dict(
     engine="libFuzzer (clang -fsanitize=fuzzer,address,undefined), structure-aware decoding, semantic oracle in the target",
     technique="coverage-guided fuzzing with an in-target state-invariance oracle and LLVM MC decoding of accepted instructions",
-    level_text=("Exploration: ~2M (quick) to ~50M (thorough) generated call scripts per run; every failed call is checked for return value, handler "
-                "invocation, unchanged holder state and cleared one-shot state, every accepted instruction for decoding to whole instructions, and a probe "
+    level_text=("Exploration: ~1.6M (quick) to ~50M (thorough) generated call scripts per run; every failed call is checked for return value, handler "
+                "invocation, unchanged holder / builder state and cleared one-shot state, every accepted instruction for decoding to whole instructions, every "
+                "call a Builder or Compiler accepts against a strict Assembler (per call and after serialisation, byte for byte), and a probe "
                 "program for independence from the history; sanitizers turn memory errors and UB into failures."),
-    level_note="Trusts LLVM MC for decoding accepted bytes and the ~150-line oracle in the target; crash artifacts are replayed before being reported.",
+    level_note=("Trusts LLVM MC for decoding accepted bytes and the ~300-line oracle in the target; crash artifacts are replayed before being reported. "
+                "Seed / regress inputs are written by tools/c14_mkseeds.py (an encoder for the target's byte format)."),
     design_ref="DESIGN.md section 4, C14",
 )
